@@ -28,34 +28,53 @@ GEN1 = ['List', 'Set', 'FrozenSet', 'Type', 'Iterable', 'Sequence', 'list', 'set
 GEN2 = ['Dict', 'Mapping', 'dict']
 TUP = ['Tuple', 'tuple']
 PNAMES = ['a', 'b', 'c', 'd', 'x', 'y', 'data', 'items', 'key', 'value', 'n', 'flag']
-FLAGS = ['applies', 'consistent', 'sig_ok', 'scope_ok', 'ctx_covers', 'doc_typed', 'doc_evaluable', 'no_typing_dot', 'doc_wf']
+FLAGS = ['applies', 'consistent', 'sig_ok', 'scope_ok', 'ctx_covers', 'doc_typed', 'doc_evaluable', 'no_typing_dot', 'doc_wf', 'no_hiding']
+# user classes that are CALLED like a non-class export of typing (they shadow it in the module, and in pedantic's eval once collected)
+HIDERS = ['List', 'Type', 'Any', 'Sequence', 'Union', 'Optional', 'Dict', 'Tuple']
+TYPING_NAMES = {'List', 'Set', 'FrozenSet', 'Type', 'Iterable', 'Sequence', 'Dict', 'Mapping', 'Tuple', 'Callable', 'Union', 'Optional', 'Any'}
+_RC = {'alias': {}, 'tp': ''}     # render context: user class -> its name in this module; prefix of typing names in annotations
 
 
 # ------------------------------------------------------------------------------------------------
 # abstract types: ('n', name) ('none',) ('sub', head, [args]) ('tupvar', head, arg) ('call', args|None, ret)
 #                 ('union', [members]) ('opt', x) ('pipe', [members])
 def rt(t):
-    """text of a type expression"""
+    """text of a type expression (user classes under their name in the current module; typing names with the current prefix)"""
     k = t[0]
+
+    def nm(x):
+        if x in _RC['alias']:
+            return _RC['alias'][x]
+        return _RC['tp'] + x if x in TYPING_NAMES else x
     if k == 'n':
-        return t[1]
+        return nm(t[1])
     if k == 'none':
         return 'None'
     if k == 'sub':
-        return f'{t[1]}[{", ".join(rt(a) for a in t[2])}]' if t[2] else f'{t[1]}[()]'
+        return f'{nm(t[1])}[{", ".join(rt(a) for a in t[2])}]' if t[2] else f'{nm(t[1])}[()]'
     if k == 'tupvar':
-        return f'{t[1]}[{rt(t[2])}, ...]'
+        return f'{nm(t[1])}[{rt(t[2])}, ...]'
     if k == 'call':
-        return f'Callable[{"..." if t[1] is None else "[" + ", ".join(rt(a) for a in t[1]) + "]"}, {rt(t[2])}]'
+        return f'{nm("Callable")}[{"..." if t[1] is None else "[" + ", ".join(rt(a) for a in t[1]) + "]"}, {rt(t[2])}]'
     if k == 'union':
-        return f'Union[{", ".join(rt(a) for a in t[1])}]'
+        return f'{nm("Union")}[{", ".join(rt(a) for a in t[1])}]'
     if k == 'opt':
-        return f'Optional[{rt(t[1])}]'
+        return f'{nm("Optional")}[{rt(t[1])}]'
     if k == 'pipe':
         return ' | '.join(('(' + rt(a) + ')') if a[0] == 'pipe' else rt(a) for a in t[1])
     if k == 'raw':
         return t[1]
     raise ValueError(t)
+
+
+def rt_ann(t):
+    """text of an annotation: typing names through the alias `_t` when the module defines classes that hide them"""
+    old = _RC['tp']
+    _RC['tp'] = '_t.' if _RC['alias'] else ''
+    try:
+        return rt(t)
+    finally:
+        _RC['tp'] = old
 
 
 def rt_ret(t):
@@ -325,7 +344,7 @@ def render_func(f, deco, indent=''):
     ps = ['self'] if f['method'] else []
     star_done = False
     for p in f['params']:
-        a = '' if p['ann'] is None else ': ' + rt(p['ann'])
+        a = '' if p['ann'] is None else ': ' + rt_ann(p['ann'])
         if p['kind'] == 'varargs':
             ps.append('*' + p['name'] + a); star_done = True; continue
         if p['kind'] == 'varkw':
@@ -333,7 +352,7 @@ def render_func(f, deco, indent=''):
         if p['kind'] == 'kwonly' and not star_done:
             ps.append('*'); star_done = True
         ps.append(p['name'] + a + (' = None' if p['default'] else ''))
-    r = '' if f['ret'] == 'absent' else ' -> None' if f['ret'] == 'none' else ' -> ' + rt(f['ret'])
+    r = '' if f['ret'] == 'absent' else ' -> None' if f['ret'] == 'none' else ' -> ' + rt_ann(f['ret'])
     lines = [indent + d for d in deco] + [f'{indent}def {f["name"]}({", ".join(ps)}){r}:']
     d = f['doc']
     b = indent + '    '
@@ -365,14 +384,21 @@ DECO = {'require': ['@pedantic_require_docstring'], 'pedantic': ['@pedantic'], '
 
 
 def render_case(c):
-    body = ''.join(f'class {u}:\n    pass\n\n' for u in USER)
-    if c['mode'] == 'class':
-        body += '@pedantic_class_require_docstring\nclass ' + c['cls_name'] + ':\n'
-        body += '\n\n'.join(render_func(f, [], '    ') for f in c['funcs']) + '\n'
-    else:
-        body += '\n\n'.join(render_func(f, DECO[c['mode']]) for f in c['funcs']) + '\n'
-    c['src'] = HEAD_REAL + '\n' + body
-    c['twin'] = HEAD_TWIN + '\n' + body
+    _RC['alias'] = dict(c.get('alias') or {})
+    try:
+        names = [_RC['alias'].get(u, u) for u in USER]
+        body = ''.join(f'class {u}:\n    pass\n\n' for u in names)
+        if c['mode'] == 'class':
+            body += '@pedantic_class_require_docstring\nclass ' + c['cls_name'] + ':\n'
+            body += '\n\n'.join(render_func(f, [], '    ') for f in c['funcs']) + '\n'
+        else:
+            body += '\n\n'.join(render_func(f, DECO[c['mode']]) for f in c['funcs']) + '\n'
+        extra = 'import typing as _t\n' if _RC['alias'] else ''
+        c['src'] = extra + HEAD_REAL + '\n' + body
+        c['twin'] = extra + HEAD_TWIN + '\n' + body
+        c['scope_names'] = names + ['NoneType']
+    finally:
+        _RC['alias'] = {}
     return c
 
 
@@ -470,6 +496,10 @@ def gen_cases(rng, tier, scale):
         else:
             funcs = [gen_func(rng, 'f', tier)]
         base = {'stream': 'docstring', 'mode': mode, 'cls_name': 'K', 'sig': s}
+        if rng.random() < 0.15:
+            # one or two of the user classes are called like typing exports; annotations spell typing names through `_t.`
+            hs = rng.sample(HIDERS, rng.choice([1, 1, 2]))
+            base['alias'] = dict(zip(rng.sample(USER, len(hs)), hs))
         cases.append(dict(base, kind='consistent', funcs=funcs, expect='ok', depth=0))
         # the same signature with the docstring respelled (Optional[X] / Union[X, None] / X | None, member order, duplicates,
         # nested unions) and reordered: still consistent
@@ -540,7 +570,7 @@ def gen_typing_cases(rng, tier, scale):
             t = gen_type(rng, depth)
             e1 = rt(respell(rng, t))
             e2 = rt(respell(rng, t)) if rng.random() < 0.6 else rt(mutate_type(rng, t)[0])
-        ctx = [u for u in USER + ['int', 'list'] if rng.random() < 0.6]
+        ctx = [u for u in USER + ['int', 'list'] if rng.random() < 0.6] + [h for h in HIDERS if rng.random() < 0.08]
         out.append({'stream': 'typing', 'ctx': ctx, 'e1': e1, 'e2': e2})
     return out
 
@@ -626,7 +656,7 @@ def cfcase(require, fn):
 
 def coq_docstring_case(c, impl):
     require = c['mode'] != 'pedantic'
-    return f'eval_case {coq_list([cstr(u) for u in USER + ["NoneType"]])} {coq_list([cfcase(require, fn) for fn in impl["funcs"]])}'
+    return f'eval_case {coq_list([cstr(u) for u in (c.get("scope_names") or USER + ["NoneType"])])} {coq_list([cfcase(require, fn) for fn in impl["funcs"]])}'
 
 
 def coq_typing_case(c, impl):
@@ -634,7 +664,7 @@ def coq_typing_case(c, impl):
         return 'None' if r['value'] is None else f'(Some {cty(r["value"])})'
     names = sorted(set(c['ctx'] + USER + BUILTIN + ['NoneType', 'list', 'object']))
     t = f'eval_typing_case {coq_list([cstr(n) for n in c["ctx"]])} {texpr_of_text(c["e1"])} {texpr_of_text(c["e2"])} {opt(impl["e1"])} {opt(impl["e2"])}'
-    if impl['e1']['value'] is not None and 'upd' in impl:
+    if impl['e1']['value'] is not None and 'upd' in impl and impl.get('hashable', True):
         t += f' ++ [-4] ++ eval_upd_case {cty(impl["e1"]["value"])} {coq_list([cstr(n) for n in names])}'
     return t, names
 
@@ -714,15 +744,23 @@ def judge_docstring(c, impl, model):
     # self checks of the generator
     gen = None
     edited = mf[c.get('edited', 0)]['flags'] if c['stream'] == 'docstring' and mf else None
-    if c.get('expect') == 'ok' and c['kind'].startswith('consistent') and not all(f['consistent'] for f in flags):
+    if c.get('expect') == 'ok' and c['kind'].startswith('consistent') and not c.get('alias') and not all(f['consistent'] for f in flags):
         gen = 'a case generated as consistent is not consistent according to the specification'
-    if c.get('expect') == 'pdoc' and edited and edited['consistent']:
+    if c.get('expect') == 'pdoc' and not c.get('alias') and edited and edited['consistent']:
         gen = f'edit {c["kind"]} did not make the docstring inconsistent according to the specification'
     return corr, viol, {'demanded': demanded, 'gen': gen}
 
 
 def intended_roundtrip(c, impl):
     """docstring_parser must return what the generator wrote (otherwise the case is not what it claims to be)"""
+    _RC['alias'] = dict(c.get('alias') or {})
+    try:
+        return _intended_roundtrip(c, impl)
+    finally:
+        _RC['alias'] = {}
+
+
+def _intended_roundtrip(c, impl):
     for f, fi in zip(c['funcs'], impl['funcs']):
         d = f['doc']
         want_p = [[n, None if t is None else rt(t)] for n, t in d['params']] if d['raw'] == 'text' else []
@@ -760,13 +798,14 @@ def judge_typing(c, impl, model, names):
         if [eq12, eq21] != [int(impl['eq12']), int(impl['eq21'])] or impl['ne12'] == impl['eq12']:
             probs.append(f'{c["e1"]!r} == {c["e2"]!r}: implementation {impl["eq12"]}/{impl["eq21"]}, model {eq12}/{eq21}')
     for w, o, e in ((wf1, o1, c['e1']), (wf2, o2, c['e2'])):
-        if w and o not in (OK, [1, 0, 10]):
+        # (C19_vocabulary_is_evaluable assumes a context without classes that hide typing names)
+        if w and o not in (OK, [1, 0, 10]) and not set(c['ctx']) & set(HIDERS):
             probs.append(f'well-formed type expression {e!r} raises {o}')
     if upd is not None:
         real = [int(n in impl['upd']) for n in names]
         if real != upd or impl.get('upd_bad'):
             probs.append(f'_update_context({c["e1"]!r}): implementation adds {impl["upd"]} {impl.get("upd_bad")}, model bits {upd} over {names}')
-    if 'upd_exc' in impl:
+    if 'upd_exc' in impl and impl.get('hashable', True):     # unhashable values (a list inside) are never annotations: not compared
         probs.append(f'_update_context({c["e1"]!r}) raised {impl["upd_exc"]}')
     return probs
 
@@ -781,6 +820,9 @@ def matcher(finding, case):
         # a documented parameter without a type; the leak is a TypeError
         untyped = any(not fl['doc_typed'] for fl in flags)
         return bool(untyped and impl == TYPEERR)
+    if m == 'late_shadowing_of_typing_name':
+        # a class visible to the function is called like a non-class typing export, and an inconsistent docstring is accepted
+        return bool(any(not fl['no_hiding'] for fl in flags) and impl == OK)
     if m == 'class_under_pipe_union_not_in_context':
         # an annotation mentions a class under `X | Y` that _update_context has not collected; a consistent docstring is rejected
         return bool(any((not fl['ctx_covers']) and fl['consistent'] for fl in flags) and impl == PDOC)
@@ -832,7 +874,7 @@ def run(tier, seed, replay=None):
 
     # ---- stream docstring
     impl, model, frag = evaluate(cases) if cases else ([], [], [])
-    hist = {'kind': {}, 'mode': {}, 'outcome': {}, 'demanded': {}, 'params': {}, 'edit_depth': {}, 'sub': {}}
+    hist = {'kind': {}, 'mode': {}, 'outcome': {}, 'demanded': {}, 'params': {}, 'edit_depth': {}, 'sub': {}, 'hiding_classes': {}}
     disagreements, gen_problems, roundtrip, out_of_fragment = [], [], [], 0
 
     def bump(h, k):
@@ -845,6 +887,7 @@ def run(tier, seed, replay=None):
         key = json.dumps([c['mode'], c['kind'], c['src']])
         ck.note_case(key, nontrivial=(not c['kind'].startswith('consistent') or sum(len(f['params']) for f in c['funcs']) >= 1))
         bump('kind', c['kind']); bump('mode', c['mode']); bump('sub', c.get('sub', 'valid'))
+        bump('hiding_classes', ','.join(sorted((c.get('alias') or {}).values())) or '-')
         bump('params', sum(len(f['params']) for f in c['funcs']))
         if c.get('expect') == 'oracle' and c['kind'].startswith(('change_type', 'alter')):
             bump('edit_depth', c.get('depth', 0))
